@@ -25,6 +25,10 @@ import (
 
 const vC07Dest = cciptypes.ChainSelector(900)
 
+var vC07BigSels = []cciptypes.ChainSelector{5009297550715157269, 11344663589394136015, 15971525489660198786, 4949039107694359620,
+	3734403246176062136, 4051577828743386545, 6433500567565415381, 16015286601757825753, 13264668187771770619,
+	1<<64 - 1, 1 << 63, 7}
+
 var vC07T0 = time.Date(2024, 5, 1, 10, 0, 0, 0, time.UTC)
 
 func vC07B32(x uint64) cciptypes.Bytes32 {
@@ -281,7 +285,7 @@ var vC07Shapes = []string{
 	"below-F", "weird-f",
 	"token-unsupported", "nonce-nodest", "costly-nodest",
 	"rechain-commit", "commit-foreign-source",
-	"token-extra-slot", "unknown-chain",
+	"token-extra-slot", "unknown-chain", "token-long-list",
 }
 
 // one generated case: the DON, the fChain map, the observations (honest world + Byzantine shape) and the home chain
@@ -299,9 +303,16 @@ func vC07Build(cr *vRand, shape string, forceN, forceF int, distinctF bool) (*vC
 		}
 		sort.Slice(g.ids, func(a, b int) bool { return g.ids[a] < g.ids[b] })
 		nc := cr.Range(1, 3)
+		// half of the groups: production-sized selectors (more than 2^63 apart / cyclic modulo 2^64)
+		bigSels, bigPerm := cr.Chance(1, 2), cr.Perm(len(vC07BigSels))
 		for k := 1; k <= nc; k++ {
-			g.chains = append(g.chains, cciptypes.ChainSelector(k))
+			if bigSels {
+				g.chains = append(g.chains, vC07BigSels[bigPerm[k]])
+			} else {
+				g.chains = append(g.chains, cciptypes.ChainSelector(k))
+			}
 		}
+		sort.Slice(g.chains, func(a, b int) bool { return g.chains[a] < g.chains[b] })
 		for _, c := range append(append([]cciptypes.ChainSelector{}, g.chains...), vC07Dest) {
 			g.f[c] = cr.Range(1, 3)
 			if shape == "weird-f" {
@@ -601,6 +612,27 @@ func vC07Build(cr *vRand, shape string, forceN, forceF int, distinctF bool) (*vC
 					base = append(base, m[seq0].TokenData...)
 				}
 				vC07AddTok(ob, c0, seq0, append(base, exectypes.TokenData{Ready: true, Data: cciptypes.Bytes{0xEF}}))
+			case "token-long-list": // more than 256 token-data slots for one message, slot k and slot k+256 equal: a vote
+				// counter keyed by a narrowed (8-bit) slot index would count one observer several times (seeded change C07-13)
+				g.sup[o][c0] = true
+				var base []exectypes.TokenData
+				if m, ok := ob.TokenData[c0]; ok {
+					base = append(base, m[seq0].TokenData...)
+				}
+				forged := exectypes.TokenData{Ready: true, Data: cciptypes.Bytes{0xEE}}
+				if len(base) == 0 || cr.Bool() {
+					base = append([]exectypes.TokenData{forged}, base...)
+				} else {
+					base[0] = forged
+				}
+				for k := len(base); k < 256*g.thr(c0)+1+cr.Intn(3); k++ {
+					td := exectypes.TokenData{Ready: true, Data: cciptypes.Bytes{0xA0, byte(k), byte(k >> 8)}}
+					if k%256 == 0 {
+						td = forged
+					}
+					base = append(base, td)
+				}
+				vC07AddTok(ob, c0, seq0, base)
 			case "unknown-chain": // F13d
 				switch cr.Intn(4) {
 				case 0:
